@@ -1,3 +1,5 @@
+#include <map>
+#include <algorithm>
 #include <utility>
 #include <cstddef>
 #include <osmium/osm/node_ref.hpp>
@@ -321,6 +323,213 @@ int touch_main() {
 
 } // namespace touch
 
+
+// ---- coinciding segments with different node ids (scenarios adapted from the demonstration of seeded change C10-c) ----
+namespace dupseg {
+// Demo for property C10: two adjacent unit squares given as two "outer" ways
+// of a multipolygon relation. The shared edge is mapped twice. The even-odd
+// fill is the 2x1 rectangle, so the assembled area must be ONE outer ring
+// without the shared edge, and no segment may appear twice in the output.
+// The result must not depend on whether the shared corners use the same node
+// ids or distinct nodes at identical locations.
+
+
+
+using namespace osmium::builder::attr; // NOLINT
+
+namespace {
+
+using loc_pair = std::pair<std::pair<int32_t, int32_t>, std::pair<int32_t, int32_t>>;
+
+struct result {
+    bool ok = false;
+    std::size_t outer = 0;
+    std::size_t inner = 0;
+    int64_t area2 = 0;          // twice the covered area (outer minus inner), in 1e-7 deg units
+    int max_segment_use = 0;    // how often the most used (undirected) segment appears
+    bool rings_closed = true;
+    bool orientation_ok = true;
+    std::vector<loc_pair> segments;
+};
+
+template <typename TRing>
+int64_t ring_sum(const TRing& ring) {
+    int64_t sum = 0;
+    for (auto it = ring.begin(); std::next(it) != ring.end(); ++it) {
+        const int64_t x1 = it->location().x();
+        const int64_t y1 = it->location().y();
+        const int64_t x2 = std::next(it)->location().x();
+        const int64_t y2 = std::next(it)->location().y();
+        sum += x1 * y2 - x2 * y1;
+    }
+    return sum;
+}
+
+template <typename TRing>
+void collect(const TRing& ring, result& r) {
+    if (ring.size() < 4 || ring.front().location() != ring.back().location()) {
+        r.rings_closed = false;
+    }
+    for (auto it = ring.begin(); std::next(it) != ring.end(); ++it) {
+        std::pair<int32_t, int32_t> a{it->location().x(), it->location().y()};
+        std::pair<int32_t, int32_t> b{std::next(it)->location().x(), std::next(it)->location().y()};
+        if (b < a) {
+            std::swap(a, b);
+        }
+        r.segments.emplace_back(a, b);
+    }
+}
+
+// id_a / id_b: node ids used by the second square for the two shared corners
+result run(osmium::object_id_type id_a, osmium::object_id_type id_b, bool swap_members) {
+    osmium::memory::Buffer buffer{10240};
+
+    const auto w1 = osmium::builder::add_way(buffer,
+        _id(10),
+        _nodes({
+            {1, {0.0, 0.0}},
+            {2, {0.0, 1.0}},
+            {3, {1.0, 1.0}},
+            {4, {1.0, 0.0}},
+            {1, {0.0, 0.0}}
+        })
+    );
+
+    const auto w2 = osmium::builder::add_way(buffer,
+        _id(11),
+        _nodes({
+            {id_a, {1.0, 0.0}},
+            {id_b, {1.0, 1.0}},
+            {7, {2.0, 1.0}},
+            {8, {2.0, 0.0}},
+            {id_a, {1.0, 0.0}}
+        })
+    );
+
+    const auto rpos = swap_members ?
+        osmium::builder::add_relation(buffer,
+            _id(100),
+            _tag("type", "multipolygon"),
+            _member(osmium::item_type::way, 11, "outer"),
+            _member(osmium::item_type::way, 10, "outer")) :
+        osmium::builder::add_relation(buffer,
+            _id(100),
+            _tag("type", "multipolygon"),
+            _member(osmium::item_type::way, 10, "outer"),
+            _member(osmium::item_type::way, 11, "outer"));
+
+    std::vector<const osmium::Way*> members;
+    if (swap_members) {
+        members.push_back(&buffer.get<osmium::Way>(w2));
+        members.push_back(&buffer.get<osmium::Way>(w1));
+    } else {
+        members.push_back(&buffer.get<osmium::Way>(w1));
+        members.push_back(&buffer.get<osmium::Way>(w2));
+    }
+
+    const osmium::area::AssemblerConfig config;
+    osmium::area::Assembler assembler{config};
+
+    osmium::memory::Buffer area_buffer{10240};
+    result r;
+    r.ok = assembler(buffer.get<osmium::Relation>(rpos), members, area_buffer);
+    if (!r.ok || area_buffer.committed() == 0) {
+        r.ok = false;
+        return r;
+    }
+
+    const auto& area = area_buffer.get<osmium::Area>(0);
+    for (const auto& outer : area.outer_rings()) {
+        ++r.outer;
+        const int64_t s = ring_sum(outer);
+        if (s <= 0) { // the library emits outer rings with positive shoelace sum...
+            r.orientation_ok = false;
+        }
+        r.area2 += std::abs(s);
+        collect(outer, r);
+        for (const auto& inner : area.inner_rings(outer)) {
+            ++r.inner;
+            const int64_t si = ring_sum(inner);
+            if (si >= 0) { // ...and inner rings with negative shoelace sum
+                r.orientation_ok = false;
+            }
+            r.area2 -= std::abs(si);
+            collect(inner, r);
+        }
+    }
+
+    std::map<loc_pair, int> uses;
+    for (const auto& s : r.segments) {
+        r.max_segment_use = std::max(r.max_segment_use, ++uses[s]);
+    }
+    std::sort(r.segments.begin(), r.segments.end());
+    return r;
+}
+
+int check(const char* name, const result& r, const result& reference) {
+    int errors = 0;
+    const int64_t unit = 10000000;
+    std::cout << name << ": ok=" << r.ok << " outer=" << r.outer << " inner=" << r.inner
+              << " area2=" << r.area2 << " segments=" << r.segments.size()
+              << " max_segment_use=" << r.max_segment_use << "\n";
+    if (!r.ok) {
+        std::cout << "  VIOLATION: valid input was not assembled\n";
+        return 1;
+    }
+    if (!r.rings_closed) {
+        std::cout << "  VIOLATION: ring not closed or fewer than four points\n";
+        ++errors;
+    }
+    if (!r.orientation_ok) {
+        std::cout << "  VIOLATION: wrong ring orientation\n";
+        ++errors;
+    }
+    if (r.max_segment_use > 1) {
+        std::cout << "  VIOLATION: a segment appears " << r.max_segment_use
+                  << " times in the rings of the area (overlapping ring segments)\n";
+        ++errors;
+    }
+    if (r.area2 != 2 * 2 * unit * unit) {
+        std::cout << "  VIOLATION: covered region is not the even-odd fill of the input\n";
+        ++errors;
+    }
+    if (r.outer != 1 || r.inner != 0) {
+        std::cout << "  VIOLATION: expected exactly one outer ring (the 2x1 rectangle), got "
+                  << r.outer << " outer / " << r.inner << " inner\n";
+        ++errors;
+    }
+    if (r.segments != reference.segments) {
+        std::cout << "  VIOLATION: geometry differs from the one built with shared node ids\n";
+        ++errors;
+    }
+    return errors;
+}
+
+} // namespace
+
+int dup_main() {
+    // Reference: second square re-uses nodes 4 and 3 for the shared corners.
+    const result shared = run(4, 3, false);
+    // Same geometry, but the second square has its own nodes 5 and 6 at the
+    // very same locations as nodes 4 and 3.
+    const result distinct = run(5, 6, false);
+    const result distinct_swapped = run(5, 6, true);
+
+    int errors = 0;
+    errors += check("shared node ids       ", shared, shared);
+    errors += check("distinct node ids     ", distinct, shared);
+    errors += check("distinct ids, swapped ", distinct_swapped, shared);
+
+    if (errors) {
+        std::cout << "FAIL: property C10 violated (" << errors << " problems)\n";
+        return 1;
+    }
+    std::cout << "PASS\n";
+    return 0;
+}
+
+} // namespace dupseg
+
 int main() {
     int failures = 0;
 
@@ -334,6 +543,7 @@ int main() {
     failures += run(5, 5, true);
 
     failures += touch::touch_main();
+    failures += dupseg::dup_main();
 
     if (failures) {
         std::cout << "PROPERTY VIOLATED (" << failures << " check(s) failed)\n";
